@@ -98,12 +98,12 @@ Definition with_second (t : ntime) (sec : Z) : R (option ntime) :=
 Definition with_nanosecond (t : ntime) (nano : Z) : option ntime :=
   if nano >=? 2000000000 then None else Some (mk_time (tsecs t) nano).
 
-(* pub const fn overflowing_add_signed(&self, rhs: TimeDelta) -> (NaiveTime, i64)
-   [oas_body] is the function body after  let secs_to_add = rhs.num_seconds();
-                                           let frac_to_add = rhs.subsec_nanos();  *)
-Definition oas_body (t : ntime) (secs_to_add frac_to_add : Z) : R (ntime * Z) :=
+(* pub const fn overflowing_add_signed(&self, rhs: TimeDelta) -> (NaiveTime, i64) *)
+Definition overflowing_add_signed (t : ntime) (rhs : td) : R (ntime * Z) :=
   let secs := as_i64 (tsecs t) in
   let frac := as_i32 (tfrac t) in
+  let* secs_to_add := num_seconds rhs in
+  let* frac_to_add := subsec_nanos rhs in
   (* the [if frac >= 1_000_000_000] block: inl = early return, inr = updated (secs, frac) *)
   let* st :=
     (if frac >=? 1000000000 then
@@ -137,10 +137,6 @@ Definition oas_body (t : ntime) (secs_to_add frac_to_add : Z) : R (ntime * Z) :=
     let* remaining := sub_i64 secs secs_in_day in
     Val (mk_time (as_u32 secs_in_day) (as_u32 frac), remaining)
   end.
-Definition overflowing_add_signed (t : ntime) (rhs : td) : R (ntime * Z) :=
-  let* secs_to_add := num_seconds rhs in
-  let* frac_to_add := subsec_nanos rhs in
-  oas_body t secs_to_add frac_to_add.
 
 (* pub const fn overflowing_sub_signed(&self, rhs: TimeDelta) -> (NaiveTime, i64) *)
 Definition overflowing_sub_signed (t : ntime) (rhs : td) : R (ntime * Z) :=
